@@ -59,10 +59,31 @@ def known():
     rows.append('%d known findings; %d entries of the file are `fixed:` records (they suppress nothing).' % (n, len(d) - n))
     return '\n'.join(rows)
 
+def benign():
+    res = {}
+    rp = os.path.join(ROOT, 'benign', 'RESULTS.json')
+    if os.path.exists(rp):
+        res = json.load(open(rp))['rules_reporting_each_benign_change']
+    rows = ['| benign change | property | what it does | first run | now | what was done |', '|---|---|---|---|---|---|']
+    names = sorted(n for n in os.listdir(os.path.join(ROOT, 'benign')) if os.path.isdir(os.path.join(ROOT, 'benign', n)))
+    nf = 0
+    for n in names:
+        m = json.load(open(os.path.join(ROOT, 'benign', n, 'meta.json')))
+        if not m.get('first_run', 'silent').startswith('silent'):
+            nf += 1
+        now = res.get(n)
+        rows.append('| `%s` | %s | %s | %s | %s | %s |' % (n, m['property'], m.get('what', '').replace('|', '/'), m.get('first_run', '?').replace('|', '/'),
+                    'silent' if now == [] else ('?' if now is None else '**alarm**: ' + ', '.join(now)), m.get('action', '').replace('|', '/')))
+    rows.append('')
+    loud = [n for n in names if res.get(n)]
+    rows.append('%d behaviour-preserving changes confirmed and kept; %d raised a false alarm when first run; %d are silent now%s.' % (
+        len(names), nf, len(names) - len(loud), (', still alarming: ' + ', '.join('`%s`' % n for n in loud)) if loud else ''))
+    return '\n'.join(rows)
+
 def main():
     p = os.path.join(ROOT, 'DESIGN.md')
     s = open(p).read()
-    for key, fn in (('fixes', fixes), ('variants', variants), ('seeded', seeded), ('known', known)):
+    for key, fn in (('fixes', fixes), ('variants', variants), ('seeded', seeded), ('known', known), ('benign', benign)):
         a, b = '<!-- GEN:%s -->' % key, '<!-- /GEN:%s -->' % key
         if a not in s:
             print('marker missing:', key); continue
